@@ -527,6 +527,96 @@ Proof.
     congruence.
 Qed.
 
+(* ---- chains without SAMI: cues may be shorter than the unit, neighbours start in different units ---- *)
+Fixpoint dom_s (u lo : Z) (cs : list cue) : Prop :=
+  match cs with
+  | [] => True
+  | (s, e) :: t =>
+      lo <= s /\ s <= e /\ e < 86400000000
+      /\ match t with (s', _) :: _ => fl u s < fl u s' | [] => True end
+      /\ dom_s u e t
+  end.
+
+Lemma starts_apart_dom_s : forall u lo cs, starts_apart u lo 82800000000 cs = true -> dom_s u lo cs.
+Proof.
+  intros u lo cs. revert lo. induction cs as [|[s e] t IH]; intros lo H; [exact I|].
+  cbn [starts_apart] in H. cbn [dom_s].
+  apply andb_true_iff in H. destruct H as [H H5]. apply andb_true_iff in H. destruct H as [H H4].
+  apply andb_true_iff in H. destruct H as [H H3]. apply andb_true_iff in H. destruct H as [H1 H2].
+  split; [lia|split; [lia|split; [lia|split; [|apply IH; exact H5]]]].
+  destruct t as [|[s' e'] t']; [exact I|lia].
+Qed.
+
+Lemma hop_cues_exact_s : forall (f : Z -> result Z) v u lo cs,
+  big_unit u -> (v = 1000 \/ v = 40000) -> v <= u -> 0 <= lo ->
+  (forall t, 0 <= t < 86400000000 -> f t = Ok (fl v t)) ->
+  dom_s u lo cs ->
+  hop_cues f cs = Ok (map (pi_pt v) cs) /\ dom_s u (fl v lo) (map (pi_pt v) cs).
+Proof.
+  intros f v u lo cs Hu Hv Hvu Hlo Hf. revert lo Hlo.
+  induction cs as [|[s e] t IH]; intros lo Hlo D; [split; [reflexivity|exact I]|].
+  cbn [dom_s] in D. destruct D as [D1 [D2 [D3 [D4 D5]]]].
+  assert (He0 : 0 <= e) by lia.
+  destruct (IH e He0 D5) as [IH1 IH2].
+  unfold hop_cues in *. cbn [res_map map fst snd].
+  rewrite (Hf s) by lia. cbn [bind]. rewrite (Hf e) by lia. cbn [bind]. rewrite IH1. cbn [bind].
+  split; [reflexivity|]. cbn [dom_s pi_pt fst snd].
+  assert (Uu : is_unit u) by (unfold big_unit in Hu; unfold is_unit; lia).
+  assert (Uv : is_unit v) by (unfold is_unit; lia).
+  split; [apply fl_mono; assumption|]. split; [apply fl_mono; assumption|].
+  split; [pose proof (fl_le v e Uv); lia|]. split; [|exact IH2].
+  destruct t as [|[s' e'] t']; [exact I|]. cbn [map pi_pt fst snd].
+  rewrite !fl_fl by assumption. replace (Z.max v u) with u by lia. exact D4.
+Qed.
+
+Lemma srt_fold_distinct_s : forall t c acc lo u, big_unit u -> dom_s u lo (c :: t) ->
+  fold_left srt_step (map cap_of t) (cap_of c :: acc) = rev (map cap_of t) ++ cap_of c :: acc.
+Proof.
+  induction t as [|d t IH]; intros c acc lo u Hu D; [reflexivity|].
+  destruct c as [s e], d as [s' e']. cbn [dom_s] in D. destruct D as [D1 [D2 [D3 [D4 D5]]]].
+  cbn [map fold_left srt_step].
+  assert (Hne : s' <> s) by (intros ->; lia).
+  rewrite same_span_cap_of by (cbn [fst]; exact Hne).
+  rewrite (IH (s', e') (cap_of (s, e) :: acc) e u Hu D5).
+  cbn [rev]. rewrite <- app_assoc. reflexivity.
+Qed.
+
+Lemma srt_written_id_s : forall cs u lo, big_unit u -> dom_s u lo cs -> srt_written cs = map cap_of cs.
+Proof.
+  intros [|c t] u lo Hu D; [reflexivity|].
+  unfold srt_written, srt_merge. cbn [map].
+  rewrite (srt_fold_distinct_s t c [] lo u Hu D). rewrite rev_app_distr. cbn [rev app].
+  rewrite rev_involutive. reflexivity.
+Qed.
+
+Lemma hop_exact_s : forall f u lo cs, big_unit u -> is_sami f = false -> unit_of f <= u -> 0 <= lo ->
+  dom_s u lo cs ->
+  hop f cs = Ok (pi f cs) /\ dom_s u (fl (unit_of f) lo) (pi f cs).
+Proof.
+  intros f u lo cs Hu Hs Hf Hlo D. destruct f; try discriminate Hs.
+  - cbn [hop pi unit_of]. rewrite (srt_written_id_s cs u lo Hu D).
+    destruct (hop_cues_exact_s hop_time_srt 1000 u lo cs Hu ltac:(lia) Hf Hlo hop_time_srt_exact D) as [H1 H2].
+    split; [|exact H2]. rewrite <- H1. unfold hop_cues.
+    clear. induction cs as [|c t IH]; [reflexivity|]. cbn [map res_map]. rewrite IH. reflexivity.
+  - exact (hop_cues_exact_s hop_time_vtt 1000 u lo cs Hu ltac:(lia) Hf Hlo hop_time_vtt_exact D).
+  - exact (hop_cues_exact_s hop_time_dfxp 1000 u lo cs Hu ltac:(lia) Hf Hlo hop_time_dfxp_exact D).
+  - refine (hop_cues_exact_s hop_time_mdvd 40000 u lo cs Hu ltac:(lia) Hf Hlo _ D).
+    intros t Ht. apply hop_time_mdvd_exact. lia.
+Qed.
+
+Lemma run_model_exact_gen_s : forall chain u lo cs, big_unit u ->
+  Forall (fun f => unit_of f <= u) chain -> existsb is_sami chain = false -> 0 <= lo -> dom_s u lo cs ->
+  run_model chain cs = Ok (run chain cs).
+Proof.
+  induction chain as [|f t IH]; intros u lo cs Hu Hc Hs Hlo D; [reflexivity|].
+  inversion Hc as [|x l Hf Ht]; subst.
+  cbn [existsb] in Hs. apply orb_false_iff in Hs. destruct Hs as [Hs1 Hs2].
+  destruct (hop_exact_s f u lo cs Hu Hs1 Hf Hlo D) as [H1 H2].
+  cbn [run_model run fold_left]. rewrite H1. cbn [bind].
+  apply (IH u (fl (unit_of f) lo)); try assumption.
+  unfold fl. destruct f; cbn [unit_of]; lia.
+Qed.
+
 (* the chain of model hops - printing every timing token with the writer models and parsing it
    back with pycaption's own reader models - is the closed form, on the whole domain *)
 Theorem run_model_exact : forall chain cs, chain_dom chain cs = true ->
@@ -537,10 +627,17 @@ Proof.
   pose proof (coarsest_unit (f :: t)) as Hu.
   assert (Hb : big_unit (coarsest (f :: t))).
   { unfold coarsest, big_unit. destruct (existsb is_mdvd (f :: t)); lia. }
-  apply (run_model_exact_gen (f :: t) (coarsest (f :: t)) 0 cs Hb).
-  - apply chain_units_le. discriminate.
-  - lia.
-  - apply sorted_from_dom_u; [unfold big_unit in Hb; lia|exact D].
+  unfold chain_dom in D. destruct (existsb is_sami (f :: t)) eqn:ES.
+  - apply (run_model_exact_gen (f :: t) (coarsest (f :: t)) 0 cs Hb).
+    + apply chain_units_le. discriminate.
+    + lia.
+    + apply sorted_from_dom_u; [unfold big_unit in Hb; lia|exact D].
+  - apply andb_true_iff in D. destruct D as [D _].
+    apply (run_model_exact_gen_s (f :: t) (coarsest (f :: t)) 0 cs Hb).
+    + apply chain_units_le. discriminate.
+    + exact ES.
+    + lia.
+    + apply starts_apart_dom_s. exact D.
 Qed.
 
 (* hence the model meets the property oracle: closed form after one pass, unchanged by a second *)
@@ -585,4 +682,43 @@ Proof.
   intros chain cs D. rewrite run_model_exact by exact D. cbn [bind]. unfold ok_chain.
   rewrite cues_close_refl. cbn [andb].
   rewrite <- run_closed_form. rewrite chain_fixpoint. apply cues_eqb_refl.
+Qed.
+
+(* ---- several languages through DFXP / SAMI ---------------------------------------------------------- *)
+Lemma run_model_set_ok : forall chain (cs : capset) (r : str * list cue -> list cue),
+  forallb carries_languages chain = true ->
+  (forall lc, In lc cs -> run_model chain (snd lc) = Ok (r lc)) ->
+  run_model_set chain cs = Ok (map (fun lc => (fst lc, r lc)) cs).
+Proof.
+  induction chain as [|f t IH]; intros cs r Hc H.
+  - cbn [run_model_set]. f_equal. rewrite <- (map_id cs) at 1. apply map_ext_in.
+    intros [l c] Hin. specialize (H _ Hin). cbn [run_model snd] in H.
+    assert (E : c = r (l, c)) by congruence. cbn [fst]. rewrite <- E. reflexivity.
+  - cbn [forallb] in Hc. apply andb_true_iff in Hc. destruct Hc as [Hf Ht].
+    cbn [run_model_set]. unfold hop_set. rewrite Hf.
+    (* every language passes the hop *)
+    assert (S : forall lc, In lc cs -> exists c', hop f (snd lc) = Ok c' /\ run_model t c' = Ok (r lc)).
+    { intros lc Hin. specialize (H _ Hin). cbn [run_model] in H.
+      destruct (hop f (snd lc)) as [c'|e]; [exists c'; split; [reflexivity|exact H]|discriminate H]. }
+    set (h := fun lc : str * list cue => match hop f (snd lc) with Ok c' => c' | Err _ => [] end).
+    assert (R : res_map (fun lc : str * list cue => do c <- hop f (snd lc); Ok (fst lc, c)) cs
+                = Ok (map (fun lc => (fst lc, h lc)) cs)).
+    { clear IH. induction cs as [|lc cs IHcs]; [reflexivity|].
+      destruct (S lc (or_introl eq_refl)) as [c' [E _]].
+      cbn [res_map map]. unfold h at 1. rewrite E. cbn [bind].
+      rewrite IHcs; [reflexivity|intros x Hx; apply H; right; exact Hx|intros x Hx; apply S; right; exact Hx]. }
+    rewrite R. cbn [bind].
+    rewrite (IH (map (fun lc => (fst lc, h lc)) cs) (fun lc' => match run_model t (snd lc') with Ok x => x | Err _ => [] end) Ht).
+    + f_equal. rewrite map_map. apply map_ext_in. intros lc Hin. cbn [fst snd].
+      destruct (S lc Hin) as [c' [E1 E2]]. unfold h. rewrite E1, E2. reflexivity.
+    + intros lc' Hin. apply in_map_iff in Hin. destruct Hin as [lc [<- Hin]]. cbn [snd].
+      destruct (S lc Hin) as [c' [E1 E2]]. unfold h. rewrite E1, E2. reflexivity.
+Qed.
+
+Theorem run_model_set_exact : forall chain cs, set_dom chain cs = true ->
+  run_model_set chain cs = Ok (expected_set chain cs).
+Proof.
+  intros chain cs H. unfold set_dom in H. apply andb_true_iff in H. destruct H as [Hc Hd].
+  unfold expected_set. apply run_model_set_ok; [exact Hc|].
+  intros lc Hin. apply run_model_exact. rewrite forallb_forall in Hd. apply Hd. exact Hin.
 Qed.
